@@ -60,10 +60,16 @@ MOD_ITEMS = {
     "async":    dict(src="pub async fn a{n}(deps: %s) -> u32 {{ {n} }}" % ANY, member=True, call="async"),
     "unsafe":   dict(src="pub unsafe fn a{n}(deps: %s) -> u32 {{ {n} }}" % ANY, member=True, call="unsafe"),
     "extern":   dict(src="pub extern \"C\" fn a{n}(deps: %s) -> u32 {{ {n} }}" % ANY, member=True, call="sync"),
+    "attrpub": dict(src="#[inline] /** doc */ pub fn a{n}(deps: %s) -> u32 {{ {n} }}" % ANY, member=True, call="sync"),
+    "asyncunsafe": dict(src="pub(crate) async unsafe fn a{n}(deps: %s) -> u32 {{ {n} }}" % ANY, member=True, call="asyncunsafe"),
     "const":    dict(src="pub const fn a{n}(deps: %s) -> u32 {{ {n} }}" % ANY, member=True, call=None,
                      compiles=False),  # const fn cannot be a trait method: token view only
     # things that must NOT become trait methods
     "priv":     dict(src="fn p{n}(deps: %s) -> u32 {{ {n} }}" % ANY, member=False),
+    "pasync":  dict(src="async fn p{n}(deps: %s) -> u32 {{ {n} }}" % ANY, member=False),
+    "punsafe": dict(src="unsafe fn p{n}(deps: %s) -> u32 {{ {n} }}" % ANY, member=False),
+    "pextern": dict(src="extern \"C\" fn p{n}(deps: %s) -> u32 {{ {n} }}" % ANY, member=False),
+    "pconst":  dict(src="const fn p{n}(deps: %s) -> u32 {{ {n} }}" % ANY, member=False),
     "struct":   dict(src="pub struct S{n} {{ pub f: u8 }}\n    impl S{n} {{ pub fn g{n}(&self) -> u32 {{ 0 }} pub(crate) fn h{n}() {{}} }}", member=False),
     "mod":      dict(src="pub mod inner{n} {{ pub fn nested{n}(deps: %s) -> u32 {{ 0 }} }}" % ANY, member=False),
     "foreign":  dict(src="extern \"C\" {{ pub fn ext{n}(x: i32) -> i32; }}", member=False),
@@ -75,7 +81,8 @@ MOD_ITEMS = {
     "trait":    dict(src="pub trait Tt{n} {{ fn tf{n}(&self) -> u32 {{ 0 }} fn tg{n}(&self); }}", member=False),
 }
 MOD_ITEM_ORDER = ["pub", "priv", "crate", "struct", "super", "async", "mod", "unsafe", "foreign", "in", "macro",
-                  "extern", "bodyless", "constblk", "use", "static", "trait", "const"]
+                  "extern", "bodyless", "constblk", "use", "static", "trait", "const",
+                  "pasync", "attrpub", "punsafe", "asyncunsafe", "pextern", "pconst"]
 
 
 def mod_item_src(sym, n, key):
